@@ -1852,7 +1852,7 @@ Proof.
   destruct (run_work current w (upd_ctx s o c_set_valid) (cb_of sc 3)) as [s8' l3]. simpl in H8'.
   pose proof (P_adv (phase_of (upd_ctx s o c_set_valid) o) _ (cp_of sc 3) H8') as H9.
   destruct (advance_at (phase_of (upd_ctx s o c_set_valid) o) s8' o (cp_of sc 3)) as [s9 b3]. simpl in H9.
-  destruct (sc_validate sc); try (apply failed_ends; assumption);
+  destruct (validate_outcome sc); try (apply failed_ends; assumption);
     (destruct b3; simpl; [exists s9; split; auto | apply failed_ends; assumption]).
 Qed.
 
@@ -1870,6 +1870,7 @@ Qed.
 Lemma exec_work_ends s log : P s -> ends o P (exec_work current w rw s o sc log).
 Proof.
   intros H. unfold exec_work.
+  destruct (negb (accepts (sc_wsh sc) 0)); [apply failed_ends; assumption|].
   pose proof (P_work _ H) as H5.
   destruct (rw s (sc_work sc)) as [s5 wl]. simpl in H5.
   destruct (sc_work_raises sc); [apply failed_ends | apply exec_after_work_ends]; assumption.
@@ -1917,7 +1918,7 @@ Qed.
 
 Fixpoint script_size (sc : script) : nat :=
   match sc with
-  | mkScript _ _ work _ _ _ =>
+  | mkScript _ _ work _ _ _ _ _ =>
       S ((fix ws (l : list wact) : nat :=
             match l with
             | [] => O
@@ -1928,7 +1929,7 @@ Fixpoint script_size (sc : script) : nat :=
 Lemma script_size_in o p reqs sc' sc :
   In (WExec o p reqs sc') (sc_work sc) -> (script_size sc' < script_size sc)%nat.
 Proof.
-  destruct sc as [cp cpw work rs v vl]. cbn [sc_work script_size].
+  destruct sc as [cp cpw work rs v vl wsh vsh]. cbn [sc_work script_size].
   induction work as [|a work IH]; intros X; [destruct X|].
   destruct X as [->|X].
   - lia.
@@ -2078,12 +2079,9 @@ Qed.
 (* ------------------------------------------------------------------ *)
 (* the callback log of execute_operation                                *)
 
-Definition is_work (e : ev) : bool := match e with EvWork _ => true | _ => false end.
-Definition is_validate (e : ev) : bool :=
-  match e with EvValidate _ | EvValidateRaise => true | _ => false end.
 Definition is_inner (e : ev) : Prop := match e with EvProbe _ | EvDid _ => True | _ => False end.
 Definition validation_ok (sc : script) : bool :=
-  match sc_validate sc with VNone | VTrue => true | _ => false end.
+  match validate_outcome sc with ONone | OTrue => true | _ => false end.
 
 Lemma run_work_log_inner nested encl fl w acts :
   forall s, Forall is_inner (snd (run_work_with nested encl fl w s acts)).
@@ -2137,7 +2135,8 @@ Ltac exec_paths :=
       destruct (advance_at ph s o c) as [s4 b] eqn:?; destruct b
   | |- context [is_active ?s ?o] => destruct (is_active s o) eqn:?
   | |- context [sc_work_raises ?sc] => destruct (sc_work_raises sc) eqn:?
-  | |- context [match sc_validate ?sc with _ => _ end] => destruct (sc_validate sc) eqn:?
+  | |- context [match validate_outcome ?sc with _ => _ end] => destruct (validate_outcome sc) eqn:?
+  | |- context [accepts ?sh ?n] => destruct (accepts sh n) eqn:?
   end; cbn [negb andb fst snd r_log r_success r_phase].
 
 Lemma acquire_all_active fl o reqs : forall s k s' out,
@@ -2259,9 +2258,9 @@ Proof.
     repeat rewrite in_app_iff; cbn [In];
     (split;
      [ try discriminate; intros _;
-       repeat match goal with H : sc_validate _ = _ |- _ => rewrite H end; tauto
+       repeat match goal with H : validate_outcome _ = _ |- _ => rewrite H end; tauto
      | intros (Hq1 & Hq2 & Hq3);
-       repeat match goal with H : sc_validate _ = _ |- _ => rewrite H in * end;
+       repeat match goal with H : validate_outcome _ = _ |- _ => rewrite H in * end;
        try reflexivity; try discriminate;
        repeat match goal with
        | X : _ \/ _ |- _ => destruct X as [X|X]
@@ -2464,16 +2463,17 @@ Definition with_val_w (k : Z) (a : wact) : wact :=
   end.
 
 Lemma with_val_eq k sc :
-  with_val k sc = mkScript (sc_cp sc) (sc_cpw sc) (map (with_val_w k) (sc_work sc)) (sc_work_raises sc) (sc_validate sc) k.
+  with_val k sc = mkScript (sc_cp sc) (sc_cpw sc) (map (with_val_w k) (sc_work sc)) (sc_work_raises sc) (sc_validate sc) k
+                           (sc_wsh sc) (sc_vsh sc).
 Proof. destruct sc; reflexivity. Qed.
 
 Lemma exec_validate_ext fl w s o sc sc' log :
-  sc_cp sc = sc_cp sc' -> sc_cpw sc = sc_cpw sc' -> sc_validate sc = sc_validate sc' ->
+  sc_cp sc = sc_cp sc' -> sc_cpw sc = sc_cpw sc' -> validate_outcome sc = validate_outcome sc' ->
   exec_validate fl w s o sc log = exec_validate fl w s o sc' log.
 Proof. intros H1 H2 H3. unfold exec_validate, cb_of, cp_of. now rewrite H1, H2, H3. Qed.
 
 Lemma exec_after_work_ext fl w s o sc sc' log :
-  sc_cp sc = sc_cp sc' -> sc_cpw sc = sc_cpw sc' -> sc_validate sc = sc_validate sc' ->
+  sc_cp sc = sc_cp sc' -> sc_cpw sc = sc_cpw sc' -> validate_outcome sc = validate_outcome sc' ->
   exec_after_work fl w s o sc log = exec_after_work fl w s o sc' log.
 Proof.
   intros H1 H2 H3. unfold exec_after_work, cb_of, cp_of. rewrite H1, H2.
@@ -2484,12 +2484,13 @@ Qed.
 
 Lemma exec_body_ext chk fl w (rw rw' : runner) s o p reqs sc sc' :
   sc_cp sc = sc_cp sc' -> sc_cpw sc = sc_cpw sc' ->
-  sc_work_raises sc = sc_work_raises sc' -> sc_validate sc = sc_validate sc' ->
+  sc_work_raises sc = sc_work_raises sc' -> validate_outcome sc = validate_outcome sc' ->
+  accepts (sc_wsh sc) 0 = accepts (sc_wsh sc') 0 ->
   (forall s0, rw s0 (sc_work sc) = rw' s0 (sc_work sc')) ->
   exec_body chk fl w rw s o p reqs sc = exec_body chk fl w rw' s o p reqs sc'.
 Proof.
-  intros H1 H2 H3 H4 H5.
-  unfold exec_body, exec_begin, exec_acquired, exec_work, cb_of, cp_of. rewrite H1, H2, H3.
+  intros H1 H2 H3 H4 H6 H5.
+  unfold exec_body, exec_begin, exec_acquired, exec_work, cb_of, cp_of. rewrite H1, H2, H3, H6.
   destruct (run_work_with no_nested [] fl w (start_op s o p false) _) as [s0' l0].
   destruct (advance_at G0 s0' o _) as [s1 b0].
   destruct (acquire_all fl s1 o 0 reqs) as [s2 out].
@@ -2498,6 +2499,7 @@ Proof.
   destruct (advance_at _ s3' o _) as [s4 b1].
   destruct (negb b1); [reflexivity|].
   destruct (chk && negb (is_active s4 o)); [reflexivity|].
+  destruct (negb (accepts (sc_wsh sc') 0)); [reflexivity|].
   rewrite H5. destruct (rw' s4 (sc_work sc')) as [s5 wl].
   destruct (sc_work_raises sc'); [reflexivity|]. now apply exec_after_work_ext.
 Qed.
@@ -2536,5 +2538,126 @@ Proof.
   intros E.
   rewrite <- (exec_in_with_val chk fl w 0 (S (script_size sc)) sc (Nat.lt_succ_diag_r _)).
   rewrite <- (exec_in_with_val chk fl w 0 (S (script_size sc')) sc' (Nat.lt_succ_diag_r _)).
+  now rewrite E.
+Qed.
+
+(* ------------------------------------------------------------------ *)
+(* how often the bodies of the caller's callables run                   *)
+
+Lemma inner_filter_validate wl : Forall is_inner wl -> filter is_validate wl = [].
+Proof.
+  induction 1 as [|e l He _ IH]; simpl; auto. destruct e; simpl in *; tauto.
+Qed.
+
+Ltac count_runs :=
+  unfold work_runs, validate_runs; cbn [r_log r_success];
+  repeat rewrite ?filter_app, ?app_length; cbn [filter is_work is_validate length app];
+  rewrite ?inner_filter_work by assumption; rewrite ?inner_filter_validate by assumption;
+  cbn [length app Nat.add].
+
+Lemma has_validator_outcome sc : has_validator sc = true -> validate_outcome sc <> ONone.
+Proof.
+  unfold has_validator, validate_outcome.
+  destruct (sc_validate sc); try discriminate; intros _; destruct (accepts (sc_vsh sc) 1); discriminate.
+Qed.
+
+(* the body of work_fn runs at most once, the body of validate_fn at most once and only
+   if that of work_fn ran; success needs the one run of work_fn and, when a validator was
+   handed in, its one run *)
+Lemma run_counts_proof fl w encl s o p reqs sc :
+  let res := snd (exec_in true fl w sc encl s o p reqs) in
+  (work_runs res <= 1)%nat /\ (validate_runs res <= 1)%nat /\
+  (validate_runs res = 1%nat -> work_runs res = 1%nat) /\
+  (r_success res = true ->
+     work_runs res = 1%nat /\ (has_validator sc = true -> validate_runs res = 1%nat)).
+Proof.
+  cbv zeta. pose proof (has_validator_outcome sc) as HV. revert HV. generalize (has_validator sc). intros hv HV.
+  exec_unfold. exec_paths; count_runs;
+    (split; [auto|]); (split; [auto|]); (split; [intros X; first [reflexivity | discriminate X]|]);
+    intros X; first [discriminate X | split; [reflexivity|]; intros Y; first [reflexivity | now destruct (HV Y)]].
+Qed.
+
+(* a callable whose signature does not accept the call execute_operation makes never runs,
+   and the operation fails (TypeError from the call itself: an exit path like any other) *)
+Lemma uncallable_work_proof fl w encl s o p reqs sc :
+  accepts (sc_wsh sc) 0 = false ->
+  let res := snd (exec_in true fl w sc encl s o p reqs) in
+  work_runs res = 0%nat /\ validate_runs res = 0%nat /\ r_success res = false.
+Proof.
+  intros A. cbv zeta. exec_unfold. rewrite A. exec_paths; count_runs; auto.
+Qed.
+
+Lemma uncallable_validator_outcome sc :
+  has_validator sc = true -> accepts (sc_vsh sc) 1 = false -> validate_outcome sc = OUncallable.
+Proof.
+  unfold has_validator, validate_outcome. intros H A. rewrite A. destruct (sc_validate sc); auto; discriminate.
+Qed.
+
+Lemma uncallable_validator_proof fl w encl s o p reqs sc :
+  has_validator sc = true -> accepts (sc_vsh sc) 1 = false ->
+  let res := snd (exec_in true fl w sc encl s o p reqs) in
+  validate_runs res = 0%nat /\ r_success res = false.
+Proof.
+  intros H A. pose proof (uncallable_validator_outcome sc H A) as E. cbv zeta. clear H A.
+  exec_unfold. rewrite E. exec_paths; count_runs; auto.
+Qed.
+
+(* ------------------------------------------------------------------ *)
+(* signatures decide nothing beyond whether they accept the call that is made *)
+
+Definition norm_sig_w (a : wact) : wact :=
+  match a with
+  | WExec o p reqs sc' => WExec o p reqs (norm_sig sc')
+  | _ => a
+  end.
+
+Lemma norm_sig_eq sc :
+  norm_sig sc = mkScript (sc_cp sc) (sc_cpw sc) (map norm_sig_w (sc_work sc)) (sc_work_raises sc) (sc_validate sc)
+                         (sc_val sc) (canon 0 (sc_wsh sc)) (canon 1 (sc_vsh sc)).
+Proof. destruct sc; reflexivity. Qed.
+
+Lemma accepts_canon n sh : accepts (canon n sh) n = accepts sh n.
+Proof.
+  unfold canon. destruct (accepts sh n) eqn:E; unfold accepts; cbn [sh_lo sh_hi].
+  - now rewrite Nat.leb_refl.
+  - assert (X : Nat.leb (S n) n = false) by (apply Nat.leb_gt; lia). now rewrite X.
+Qed.
+
+Lemma run_work_norm_sig nested encl fl w : forall acts s,
+  (forall o p reqs sc', In (WExec o p reqs sc') acts ->
+     forall s', nested s' o p reqs (norm_sig sc') = nested s' o p reqs sc') ->
+  run_work_with nested encl fl w s (map norm_sig_w acts) = run_work_with nested encl fl w s acts.
+Proof.
+  induction acts as [|a acts IH]; intros s H; [reflexivity|].
+  assert (IH' : forall s, run_work_with nested encl fl w s (map norm_sig_w acts)
+                          = run_work_with nested encl fl w s acts).
+  { intros s'. apply IH. intros; apply H; now right. }
+  destruct a as [|f|o p reqs sc']; cbn [map norm_sig_w run_work_with].
+  - now rewrite IH'.
+  - destruct (fstep fl w s f) as [s1 ret]. now rewrite IH'.
+  - destruct (is_active s o || memz o encl).
+    + now rewrite IH'.
+    + rewrite (H o p reqs sc' (or_introl eq_refl)). destruct (nested s o p reqs sc') as [s1 r]. now rewrite IH'.
+Qed.
+
+Lemma exec_in_norm_sig chk fl w : forall n sc, (script_size sc < n)%nat -> forall encl s o p reqs,
+  exec_in chk fl w (norm_sig sc) encl s o p reqs = exec_in chk fl w sc encl s o p reqs.
+Proof.
+  induction n as [|n IHn]; intros sc Hn encl s o p reqs; [lia|].
+  rewrite !exec_in_eq. rewrite norm_sig_eq.
+  apply exec_body_ext; try reflexivity.
+  - unfold validate_outcome. cbn [sc_validate sc_vsh]. now rewrite accepts_canon.
+  - cbn [sc_wsh]. apply accepts_canon.
+  - intros s0. cbn [sc_work]. unfold run_work_x. apply run_work_norm_sig.
+    intros o' p' reqs' sc' Hi s'. apply IHn. apply script_size_in in Hi. lia.
+Qed.
+
+Lemma signatures_irrelevant_proof chk fl w sc sc' encl s o p reqs :
+  norm_sig sc = norm_sig sc' ->
+  exec_in chk fl w sc encl s o p reqs = exec_in chk fl w sc' encl s o p reqs.
+Proof.
+  intros E.
+  rewrite <- (exec_in_norm_sig chk fl w (S (script_size sc)) sc (Nat.lt_succ_diag_r _)).
+  rewrite <- (exec_in_norm_sig chk fl w (S (script_size sc')) sc' (Nat.lt_succ_diag_r _)).
   now rewrite E.
 Qed.
